@@ -240,36 +240,6 @@ func VerifC06TwoSteps() {
 	verifSameRecord(p, r, what+" (second operation)")
 }
 
-// regex FS: pieces between the non-empty leftmost-longest matches; model of the regexp result by contract
-func verifRegexFindAll(pattern, s string, n int) [][]int {
-	var out [][]int
-	if len(pattern) == 1 && (pattern[0] >= 'a' && pattern[0] <= 'z') {
-		// a single literal letter: every occurrence
-		for i := 0; i < len(s); i++ {
-			if s[i] == pattern[0] {
-				out = append(out, []int{i, i + 1})
-			}
-		}
-		return out
-	}
-	if pattern != "X+" {
-		panic("verifRegexFindAll: no model for " + pattern)
-	}
-	for i := 0; i < len(s); {
-		if s[i] == 'X' {
-			j := i + 1
-			for j < len(s) && s[j] == 'X' {
-				j++
-			}
-			out = append(out, []int{i, j})
-			i = j
-		} else {
-			i++
-		}
-	}
-	return out
-}
-
 func VerifC06RegexFS() {
 	p := &interp{fieldSep: " ", savedFieldSep: " ", outputFieldSep: " ", convertFormat: "%.6g"}
 	err := p.setSpecial(ast.V_FS, str("X+"))
